@@ -3,7 +3,7 @@
 Coq terms and evaluated by the kernel's vm_compute on the model's own definitions; the result must equal what the
 extracted OCaml model printed.   usage: kcheck.py <Cxx> [sample]   -> prints 'kcheck Cxx: N cases, M mismatches'
 Supported: C12 (round-robin / weighted round-robin runs), C16 (shutdown schedules), C19 (what the HTTP front ends build from
-header sets), C18 (breaker traces), C10 (fail-mode scripts)."""
+header sets), C18 (breaker traces), C10 (fail-mode scripts), C03 / C05 / C06 (client state-machine schedules), C04 / C07 / C20 (server dispatch behind the connection loop's gate)."""
 import os, random, re, subprocess, sys
 ROOT = os.path.dirname(os.path.dirname(os.path.abspath(__file__)))
 pid = sys.argv[1]
@@ -213,6 +213,195 @@ Definition res_ok (r : xres) (log : list (nat * outcome)) (e : option errk * opt
     (match x_reply r, snd e with Some a, Some b => Nat.eqb a b | None, None => true | _, _ => false end) | _, _ => false end.
 Definition cases : list (xres * list (nat * outcome) * (option errk * option nat)) := %s.
 Definition bad := filter (fun c => match c with (r, log, e) => negb (res_ok r log e) end) cases.
+Definition KCHECK := Eval vm_compute in (length cases, length bad).
+Print KCHECK.
+""" % coq_list(rows)
+    out.append(src)
+elif pid in ("C03", "C05", "C06"):
+    # the client state machine: calls;events -> per call (number of signals, last / returned result), pushes, table size, flags
+    ids = [i for i in sorted(cases) if ";" in cases[i] and " | " in model.get(i, "")]
+    random.Random(1).shuffle(ids)
+    ids = ids[:sample]
+    bl = lambda x: "true" if x == "1" else "false"
+    KIND = {"G": "KGo", "C": "KCall", "R": "KRaw"}
+    def res(t):
+        if t.startswith("ok:"): return ("ROk %s" % t[3:], True)   # ROneway also prints ok:0
+        if t.startswith("svc:"): return ("RSvcErr %s" % t[4:], False)
+        return ({"decode": "RDecodeErr", "codec": "RCodecErr", "ctx": "RCtx", "conn": "RConnErr", "shutdown": "RShutdown",
+                 "write": "RWriteErr", "enc": "REncErr"}[t], False)
+    for i in ids:
+        cspec, evs = cases[i].split(";", 1)
+        calls = []
+        for t in cspec.split():
+            k, o, rs = t.split(":")
+            calls.append("new_call %s %s %s%%N" % (KIND[k], bl(o), rs))
+        sched = []
+        okc = True
+        for t in evs.split():
+            f = t.split(":")
+            if f[0] == "recv":
+                sched.append("ERecv (mkFrame %s %s%%N %s %s %s %s %s %s %s)" % (f[1], f[2], bl(f[3]), bl(f[4]), bl(f[5]), f[6], f[7], bl(f[8]), bl(f[9])))
+            elif f[0] == "rderr":
+                sched.append("EReadErr %s" % bl(f[1]))
+            elif f[0] == "close":
+                sched.append("EClose")
+            else:
+                op = {"reg": "EReg", "rawreg": "ERawReg", "encfail": "EEncFail", "wok": "EWriteOk", "wfail": "EWriteFail",
+                      "ow": "EOneway", "ctx": "ECtx", "take": "ETake"}.get(f[0])
+                if op is None:
+                    okc = False
+                    break
+                sched.append("%s %s" % (op, f[1]))
+        if not okc:
+            continue
+        left, right = model[i].split(" | ")
+        exp = []
+        for t in left.split():
+            f = t.split(":", 2)
+            if f[0] == "G":
+                n = f[1]
+                last = f[2]
+                exp.append("(%s, %s)" % (n, "None" if last == "-" else "Some (%s)" % res(last)[0]))
+            else:
+                r = t.split("=", 1)[1]
+                exp.append("(0, %s)" % ("None" if r == "-" else "Some (%s)" % res(r)[0]))
+        m = re.match(r"pushes=(\S*) pending=(\d+) shutdown=(\d) closing=(\d)", right)
+        pushes = [x for x in m.group(1).split(",") if x]
+        rows.append("(%s, %s, %s, %s, %s, (%s, %s))" % (coq_list(calls), coq_list(sched), coq_list(exp), coq_list(pushes), m.group(2), bl(m.group(3)), bl(m.group(4))))
+    src = """From Coq Require Import List NArith Arith Bool.
+From RPCX Require Import Client.ClientSM.
+Import ListNotations.
+Definition r_eqb (a b : result) : bool := match a, b with
+  | ROk x, ROk y | RSvcErr x, RSvcErr y => Nat.eqb x y
+  | ROneway, ROk 0 | ROk 0, ROneway | ROneway, ROneway => true
+  | RDecodeErr, RDecodeErr | RCodecErr, RCodecErr | RCtx, RCtx | RConnErr, RConnErr | RShutdown, RShutdown
+  | RWriteErr, RWriteErr | REncErr, REncErr => true | _, _ => false end.
+Definition or_eqb (a b : option result) : bool := match a, b with Some x, Some y => r_eqb x y | None, None => true | _, _ => false end.
+Definition view (x : call) : nat * option result :=
+  match c_kind x with
+  | KGo => (length (c_signals x), match rev (c_signals x) with (_, r) :: _ => Some r | [] => None end)
+  | _ => (0, c_ret x)
+  end.
+Fixpoint views_eqb (a b : list (nat * option result)) : bool := match a, b with [], [] => true
+  | (n, r) :: a', (n', r') :: b' => Nat.eqb n n' && or_eqb r r' && views_eqb a' b' | _, _ => false end.
+Fixpoint nats_eqb (a b : list nat) : bool := match a, b with [], [] => true | x :: a', y :: b' => Nat.eqb x y && nats_eqb a' b' | _, _ => false end.
+Definition cases : list (list call * list event * list (nat * option result) * list nat * nat * (bool * bool)) := %s.
+Definition bad := filter (fun c => match c with (cs, evs, exp, pu, pe, (sh, cl)) =>
+  let st := run (init cs true) evs in
+  negb (views_eqb (map view (calls st)) exp && nats_eqb (pushes st) pu && Nat.eqb (length (pending st)) pe
+        && Bool.eqb (shutdown st) sh && Bool.eqb (closing st) cl) end) cases.
+Definition KCHECK := Eval vm_compute in (length cases, length bad).
+Print KCHECK.
+""" % coq_list(rows)
+    out.append(src)
+elif pid in ("C04", "C07", "C20"):
+    # server dispatch behind the connection loop's gate: R / G / D tokens -> frames written per connection, handlers run
+    ids = [i for i in sorted(cases) if cases[i].startswith(("R:", "G:")) and " inv=[" in model.get(i, "")]
+    random.Random(1).shuffle(ids)
+    ids = ids[:sample]
+    bl = lambda x: "true" if x == "1" else "false"
+    TGT = {"router": "TRouter", "nosvc": "TNoService", "nometh": "TNoMethod", "func": "TFunction", "method": "TMethod"}
+    for i in ids:
+        names = {}
+        def intern(x):
+            if x not in names:
+                names[x] = len(names) + 1
+            return names[x]
+        evs, finds, decs, hands, metas, gates = [], [], [], [], [], []
+        for t in cases[i].split(" "):
+            f = t.split(":")
+            if f[0] == "R":
+                _, conn, rid, seq, path, meth, ser, hb, ow, target, codec, dec, h, c, rm = f
+                pi, mi = intern(path), intern(meth)
+                finds.append("((%d, %d), %s)" % (pi, mi, TGT[target]))
+                decs.append("(%s, %s)" % (rid, bl(dec)))
+                hid = h[1:]
+                hands.append("(%s, %s)" % (rid, {"r": "HReply %s" % rid, "f": "HFail %s" % hid, "v": "HVeto %s" % hid}.get(h[0], "HPanic %s" % hid)))
+                if rm == "1":
+                    metas.append(rid)
+                evs.append("CRead %s %s (mkReq %s%%N %d %d %s%%N %s %s %s)" % (conn, rid, seq, pi, mi, ser, bl(hb), bl(ow), rid))
+            elif f[0] == "G":
+                _, conn, rid, seq, path, meth, ser, hb, ow, kind, text = f
+                pi, mi = intern(path), intern(meth)
+                decs.append("(%s, true)" % rid)
+                hands.append("(%s, HReply %s)" % (rid, rid))
+                gates.append("(%s, (%s, %s))" % (rid, "true" if kind == "l" else "false", text))
+                evs.append("CRead %s %s (mkReq %s%%N %d %d %s%%N %s %s %s)" % (conn, rid, seq, pi, mi, ser, bl(hb), bl(ow), rid))
+            elif f[0] == "D":
+                evs.append("CDone %s" % f[1])
+        left, inv = model[i].rsplit(" inv=[", 1)
+        inv = [x for x in inv.rstrip("]").split(",") if x]
+        exp = []
+        okc = True
+        for part in re.findall(r"c(\d+)=\[([^\]]*)\]", left):
+            frames = []
+            for fr in [x for x in part[1].split(";") if x]:
+                g = fr.split("/")
+                if len(g) != 7 or "." not in g[1]:
+                    okc = False
+                    break
+                seq, pm, ser, status, ek, pl, rm = g
+                pth, mth = pm.split(".", 1)
+                if pth not in names or mth not in names:
+                    okc = False
+                    break
+                code = {"-": "(0, 0)", "nosvc": "(3, 0)", "nometh": "(4, 0)", "decode": "(5, 0)", "nocodec": "(6, 0)"}.get(ek)
+                if code is None:
+                    k, n = ek.split(":")
+                    code = "(%d, %s)" % (1 if k == "text" else 2, n)
+                plv = "None"
+                if pl.startswith("id"):
+                    plv = "Some %s" % pl[2:].split("=")[0]
+                rmv = "None" if rm == "rm=-" else "Some %s" % rm[4:]
+                frames.append("(%s%%N, (%d, %d), %s%%N, %s, %s, (%s, %s, %s))" % (seq, names[pth], names[mth], ser,
+                              "true" if status == "error" else "false", code, bl("1" if pl == "echo" else "0"), plv, rmv))
+            if not okc:
+                break
+            exp.append("(%s, %s)" % (part[0], coq_list(frames)))
+        if not okc:
+            continue
+        rows.append("(%s, (%s, %s, %s, %s, %s), %s, %s)" % (coq_list(evs), coq_list(finds), coq_list(decs), coq_list(hands),
+                    coq_list(metas), coq_list(gates), coq_list(exp), coq_list(inv)))
+    src = """From Coq Require Import List NArith Arith Bool.
+From RPCX Require Import Server.Dispatch Server.Gate.
+Import ListNotations.
+Definition fr := (N * (nat * nat) * N * bool * (nat * nat) * (bool * option nat * option nat))%%type.
+Definition tables := (list ((nat * nat) * target) * list (nat * bool) * list (nat * hres) * list nat * list (nat * (bool * nat)))%%type.
+Fixpoint assoc {A} (l : list (nat * A)) (k : nat) : option A :=
+  match l with [] => None | (k', v) :: r => if Nat.eqb k' k then Some v else assoc r k end.
+Fixpoint assoc2 {A} (l : list ((nat * nat) * A)) (a b : nat) : option A :=
+  match l with [] => None | ((a', b'), v) :: r => if Nat.eqb a' a && Nat.eqb b' b then Some v else assoc2 r a b end.
+Definition ecode (e : option etext) : nat * nat := match e with
+  | None => (0, 0) | Some (XExact t) => (1, t) | Some (XPanicExact v) => (1, v) | Some (XPanic v) => (2, v)
+  | Some (XNoService _) => (3, 0) | Some (XNoMethod _) => (4, 0) | Some (XDecode _ _) => (5, 0) | Some (XNoCodec _) => (6, 0) end.
+Definition onat_eqb (a b : option nat) : bool := match a, b with Some x, Some y => Nat.eqb x y | None, None => true | _, _ => false end.
+Definition fr_ok (f : sresp) (e : fr) : bool :=
+  match e with (seq, (p, m), ser, err, code, (echo, pl, rm)) =>
+    N.eqb (r_seq f) seq && Nat.eqb (r_path f) p && Nat.eqb (r_meth f) m && N.eqb (r_ser f) ser
+    && Bool.eqb (match r_status f with SError => true | SNormal => false end) err
+    && (let c := ecode (r_err f) in Nat.eqb (fst c) (fst code) && Nat.eqb (snd c) (snd code))
+    && Bool.eqb (r_hb f) echo
+    && (match pl with Some x => Nat.eqb (r_payload f) x | None => true end)
+    && onat_eqb (match r_meta f with (_, v) :: _ => Some v | [] => None end) rm
+  end.
+Fixpoint frs_ok (a : list sresp) (b : list fr) : bool := match a, b with [], [] => true
+  | x :: a', y :: b' => fr_ok x y && frs_ok a' b' | _, _ => false end.
+Definition case_ok (evs : list cevent) (tb : tables) (exp : list (nat * list fr)) (inv : list nat) : bool :=
+  match tb with (finds, decs, hands, metas, gates) =>
+    let find p m := match assoc2 (rev finds) p m with Some t => t | None => TMethod end in
+    let codec_ok (s : N) := negb (N.eqb s 9) in
+    let decodable (_ : N) a := match assoc decs a with Some b => b | None => true end in
+    let handler (_ _ : nat) a := match assoc hands a with Some h => h | None => HReply a end in
+    let hmeta (_ _ : nat) a := if existsb (Nat.eqb a) metas then [(1, a)] else [] in
+    let refuses (k : bool) (_ _ : nat) a := match assoc gates a with Some (k', t) => if Bool.eqb k k' then Some t else None | None => None end in
+    let st := gbase (grun find codec_ok decodable handler hmeta (refuses true) (refuses false) ginit evs) in
+    forallb (fun ce => frs_ok (map snd (filter (fun cf => Nat.eqb (fst cf) (fst ce)) (written st))) (snd ce)) exp
+    && Nat.eqb (length (written st)) (fold_right (fun ce n => length (snd ce) + n) 0 exp)
+    && Nat.eqb (length (invoked st)) (length inv)
+    && forallb (fun i => existsb (Nat.eqb (snd i)) inv) (invoked st)
+  end.
+Definition cases : list (list cevent * tables * list (nat * list fr) * list nat) := %s.
+Definition bad := filter (fun c => match c with (evs, tb, exp, inv) => negb (case_ok evs tb exp inv) end) cases.
 Definition KCHECK := Eval vm_compute in (length cases, length bad).
 Print KCHECK.
 """ % coq_list(rows)
